@@ -27,14 +27,16 @@ pub fn solve_one_main() -> i32 {
         solution::verif::enable();
         let out = server::solve_instance(input.clone());
         let snaps = solution::verif::take();
-        (out, snaps)
+        let trans = solution::verif::take_transitions();
+        (out, snaps, trans)
     });
     match res {
         Err(p) => {
             sut::outln(&json!({"status": "panic", "msg": p.msg, "loc": p.loc, "file": p.file()}).to_string());
         }
-        Ok((out, snaps)) => {
+        Ok((out, snaps, trans)) => {
             let mut snapshots = Vec::new();
+            let mut optimiser_output: Vec<Value> = Vec::new();
             if want_snapshots {
                 // id maps are built in the child, digests are what travels
                 // the id maps must be built over the very network the snapshots refer to: default
@@ -47,6 +49,15 @@ pub fn solve_one_main() -> i32 {
                 };
                 match sut::catch(build) {
                     Ok(Ok(cx)) => {
+                        for (label, vt, t) in &trans {
+                            if label == "optimiser_output" {
+                                optimiser_output.push(json!({
+                                    "type": cx.type_of.get(vt),
+                                    "cycles": t.cycles_iter().filter(|c| !c.is_empty()).map(|c| c.iter().map(|v| v.to_string()).collect::<Vec<_>>()).collect::<Vec<_>>(),
+                                    "totals": [t.maintenance_violation(), t.maintenance_counter()],
+                                }));
+                            }
+                        }
                         for (label, s) in &snaps {
                             let fs = sut::catch(|| osched::validate(&cx, s, &osched::Opts { c09: true, c10: true }));
                             let osched: Vec<Value> = match fs {
@@ -60,6 +71,7 @@ pub fn solve_one_main() -> i32 {
                     _ => {}
                 }
             }
+            snapshots.push(json!({"label": "optimiser_output", "per_type": optimiser_output}));
             sut::outln(&json!({"status": "answer", "output": out, "snapshots": snapshots}).to_string());
         }
     }
@@ -158,7 +170,12 @@ impl PipelineEngine {
         let mut cfg = if tier == "thorough" { GenCfg::thorough() } else { GenCfg::quick() };
         match prop {
             "C02" | "C07" => cfg.heavy_demand = true,
-            "C04" | "C05" | "C16" => cfg.force_slots = true,
+            "C04" | "C05" => cfg.force_slots = true,
+            "C16" => {
+                cfg.force_slots = true;
+                cfg.cycle_rich = true;
+                cfg.max_slots = 4;
+            }
             "C06" => cfg.heavy_demand = true,
             _ => {}
         }
@@ -226,6 +243,25 @@ pub fn check_stages(fl: &Flat, snaps: &[Value], output: &Value, fs: &mut Vec<Fin
     let differs_from_ls = norm(&ls["cycles"]) != opt_cycles;
     if fin_cycles != opt_cycles {
         fs.push(Finding { prop: "C16", msg: format!("rotation cycles of the returned schedule {:?} are not the transition optimiser's cycles {:?} (local-search result had {:?})", fin_cycles, opt_cycles, norm(&ls["cycles"])) });
+    }
+    // (2b) the cycles carried on are the transition optimiser's own output (hook H6)
+    if let Some(oo) = snaps.iter().find(|s| s["label"] == "optimiser_output") {
+        let per_type = oo["per_type"].as_array().cloned().unwrap_or_default();
+        if per_type.len() != fl.inst.types.len() {
+            fs.push(Finding { prop: "C16", msg: format!("the transition optimiser was run for {} of {} vehicle types", per_type.len(), fl.inst.types.len()) });
+        }
+        for e in per_type {
+            let Some(ti) = e["type"].as_u64().map(|x| x as usize) else { continue };
+            let cyc: Vec<Vec<String>> = e["cycles"].as_array().cloned().unwrap_or_default().iter().map(|c| c.as_array().cloned().unwrap_or_default().iter().map(|v| v.as_str().unwrap_or("").to_string()).collect()).collect();
+            if opt_cycles.get(ti) != Some(&cyc) {
+                fs.push(Finding { prop: "C16", msg: format!("type {}: the cycles carried into the final stage {:?} are not the transition optimiser's output {:?}: its result is discarded", ti, opt_cycles.get(ti), cyc) });
+            }
+            let inp = &ls["transition_totals"][ti];
+            let (xa, ya) = ((inp[0].as_i64().unwrap_or(0), inp[1].as_i64().unwrap_or(0)), (e["totals"][0].as_i64().unwrap_or(0), e["totals"][1].as_i64().unwrap_or(0)));
+            if ya > xa {
+                fs.push(Finding { prop: "C15", msg: format!("transition optimisation worsened type {}: (violation, counter) {:?} -> {:?}", ti, xa, ya) });
+            }
+        }
     }
     let mut json_cycles: Vec<Vec<Vec<String>>> = vec![Vec::new(); fl.inst.types.len()];
     for fleet in output["schedule"]["fleet"].as_array().cloned().unwrap_or_default() {
